@@ -94,6 +94,17 @@ Theorem C01_start_in_box_unit_geometry :
 Proof. exact init_u0_in_box_unit. Qed.
 Print Assumptions C01_start_in_box_unit_geometry.
 
+(* ... and there the nudges never fire: the constructor widens the plausible box to contain x0, so the transformed x0 lies in
+   [-1, 1]; 1 and -1 are grid points of every search mesh 2^ks (ks <= 0), hence so does the nearest grid point.  (This is why a
+   change confined to the nudge can have NO failing input on real BADS objects; harness/comp_grid.py runs the located statements
+   on arbitrary boxes to exercise it.) *)
+Theorem C01_start_no_nudge_unit_geometry :
+  forall (x lb ub : Q) (ks : Z), ks <= 0 -> (lb <= - (1))%Q -> (1 <= ub)%Q -> (- (1) <= x)%Q -> (x <= 1)%Q ->
+    let m := src_init_search_mesh_size (2 # 1) ks in
+    (src_init_u0 x lb ub m == src_force_to_grid x m)%Q /\ (- (1) <= src_init_u0 x lb ub m)%Q /\ (src_init_u0 x lb ub m <= 1)%Q.
+Proof. exact start_no_nudge_unit. Qed.
+Print Assumptions C01_start_no_nudge_unit_geometry.
+
 (* without the width premise the clause is FALSE: inside a box narrower than a step the nudges can push a valid start out
    (lb = 1/4 <= x0 = 3/8 <= ub = 1/2, mesh 1): the constructor then raises ValueError rather than evaluate outside *)
 Theorem C01_start_nudged_in_any_box_refuted :
